@@ -36,7 +36,9 @@ def snapshot(d):
 # (exclude patterns given to the recording calls, rule pattern that allows the excluded files in the final
 #  inspection (which records with the default patterns), a path that the patterns exclude)
 EXCLUDE_SETS = [(["docs", "*.link*"], "docs/*", "docs/junk.md"), (["*.c*", "*.link*"], "*.c*", "junk.c"),
-                (["lib/deep", "*.link*"], "lib/deep/*", "lib/deep/junk")]
+                (["lib/deep", "*.link*"], "lib/deep/*", "lib/deep/junk"),
+                # root-anchored: only ./deep and ./src/.. are excluded, lib/deep/x.py must still be recorded
+                (["/deep", "*.link*"], "deep/*", "deep/junk"), (["/b.c0", "/lib/x.py0", "*.link*"], "b.c0", "b.c0")]
 LSTRIP_SETS = [["src/"], ["lib/"], ["lib/deep/"], ["src/", "docs/"], ["lib/", "deep/"], ["deep/", "lib/"], ["docs/", "r e"],
                ["nothing/", "src/"]]
 
@@ -89,7 +91,7 @@ def gen_ops(rng, present, n):
     ops = []
     present = {p for p in present if not p.startswith("alias/")}
     for _ in range(n):
-        kind = rng.choice(["create", "modify", "delete", "rename", "create"])
+        kind = rng.choice(["create", "modify", "delete", "rename", "create", "stamp"])
         if kind == "create" or not present:
             p = rng.choice(NAMES) + str(rng.randrange(3))
             ops.append("create:%s:%s" % (p, "c%d\n" % rng.randrange(99)))
@@ -97,6 +99,8 @@ def gen_ops(rng, present, n):
         elif kind == "modify":
             p = rng.choice(sorted(present))
             ops.append("modify:%s:%s" % (p, "m%d\n" % rng.randrange(99)))
+        elif kind == "stamp":
+            ops.append("stamp:" + rng.choice(sorted(present)))
         elif kind == "delete":
             p = rng.choice(sorted(present))
             ops.append("delete:" + p)
